@@ -145,6 +145,9 @@ type Fault struct {
 	// "length" (outer open-type length raised beyond the datagram)
 	Garbage   string `json:"garbage,omitempty"`
 	PrefixLen int    `json:"prefix_len,omitempty"`
+	// DelayMs (garbage only): the undecodable answer arrives this late (a slow peer); everything the AMF sends
+	// afterwards queues behind it, so only the time changes, never the order
+	DelayMs int `json:"delay_ms,omitempty"`
 }
 
 // Scenario: one complete conversation from the network's point of view.
